@@ -20,7 +20,7 @@ RULE = ("histories over {place(content form, value), rest(value), bar + content,
         "histories of up to 60 steps, (d) meter acceptance over beat units/counts. The bar is compared with an exact Fraction "
         "model after every step. Non-trivial: a history that reaches exact capacity, contains a refusal, or places after a "
         "remove-last; a fill with > 1 part; a meter with a non-integer or non-power-of-two unit."
-        " Also: constructed overflows by 1-5 vocabulary quanta; 'beat closer' histories (tuplet-heavy prefix, values placed until exactly one or two beats are left, then '+'); 'churn' histories (place-and-remove cycles on tuplet beats, then an exact refill); emptying the same Bar and giving it a new meter; place_notes_at with the beat written as an int, including whole-number beats where no entry starts.")
+        " Also: constructed overflows by 1-5 vocabulary quanta; 'beat closer' histories (tuplet-heavy prefix, values placed until exactly one or two beats are left, then '+'); 'churn' histories (place-and-remove cycles on tuplet beats, then an exact refill); emptying the same Bar and giving it a new meter; place_notes_at with the beat written as an int, including whole-number beats where no entry starts; every ordered pair of meters applied one after the other to one Bar object (fresh, or used and emptied) followed by '+' and an exact close.")
 ASSUMPTIONS = ["note values handed to mingus are ints when integral, else the correctly rounded float of the vocabulary rational",
                "a refused meter is any raised exception with the bar unchanged (statement does not name the error)",
                "float clauses compared with |.| <= 1e-9; vocabulary quantum is 1/215040 ~ 4.7e-6"]
@@ -434,6 +434,23 @@ def sub_meters(ctx, shard, n):
     ctx.given("meter", check_meter, strat, 500 if ctx.quick else 20000)
 
 
+def sub_meter_changes(ctx, shard, n):
+    """one Bar object given a second meter (before anything was placed, or after it was used and emptied): '+' and the
+    accounting must follow the new meter alone"""
+    c4 = [["C", 4]]
+    cases = []
+    for m1 in METERS:
+        for m2 in METERS:
+            if m1 == m2:
+                continue
+            tail = [["meter", m2], ["plus", "str", c4], ["plus", "note", c4], ["rest", [8, 0, 1, 1]], ["plus", "liststr", c4], ["fill", "str", c4, True]]
+            cases.append({"meter": m1, "ops": tail})
+            cases.append({"meter": m1, "ops": [["plus", "str", c4], ["rest", [16, 0, 1, 1]], ["empty"]] + tail})
+    if shard == 0:
+        ctx.exhaustive("a second meter on the same Bar object, then '+' / rest / '+' / exact close", "all ordered pairs of %d meters x {fresh, used and emptied}" % len(METERS), len(cases))
+    ctx.enumerate("history", check_history, cases[shard::n], size_key=lambda c: len(c["ops"]))
+
+
 SUBS = [
     Sub("exhaustive", sub_exhaustive, quick=16, thorough=16),
     Sub("fills", sub_fills, quick=4, thorough=16),
@@ -443,4 +460,5 @@ SUBS = [
     Sub("beat_closers", sub_beat_closers, quick=3, thorough=8),
     Sub("churn", sub_churn, quick=3, thorough=8),
     Sub("meters", sub_meters),
+    Sub("meter_changes", sub_meter_changes, quick=3, thorough=3),
 ]
